@@ -28,11 +28,19 @@ def run_property(prop: str, tier: str, quiet: bool = False, write: bool = True, 
         if counts[k] < v:
             raise AnalysisError(f"only {counts[k]} {k} parsed under {tree.pkgdir} (floor {v}): the build is not covered")
     results = []
+    rule_errors = []
     for rule in spec["rules"](tier):
-        res = rule(tree)
-        if res.floor and res.instances < res.floor:
-            raise AnalysisError(f"rule {res.rule}: {res.instances} anchor instances found, hand-confirmed floor is {res.floor}")
-        results.append(res)
+        # a rule that cannot run (vanished anchor, unrecognised shape, internal error) must not hide what the other rules find:
+        # its failure is fatal (exit 2) only if no rule reports a violation
+        try:
+            res = rule(tree)
+            if res.floor and res.instances < res.floor:
+                raise AnalysisError(f"rule {res.rule}: {res.instances} anchor instances found, hand-confirmed floor is {res.floor}")
+            results.append(res)
+        except AnalysisError as e:
+            rule_errors.append(f"{getattr(rule, '__name__', getattr(getattr(rule, 'func', None), '__name__', 'rule'))}: {e}")
+        except Exception as e:
+            rule_errors.append(f"{getattr(rule, '__name__', getattr(getattr(rule, 'func', None), '__name__', 'rule'))}: internal {type(e).__name__}: {e}")
     # positive controls
     known = load_known()
     violations = []
@@ -54,6 +62,11 @@ def run_property(prop: str, tier: str, quiet: bool = False, write: bool = True, 
         ctrl, ctrl_failures = run_controls(spec.get("controls", []))
         if ctrl_failures and not violations:
             raise AnalysisError("; ".join(ctrl_failures))
+    if rule_errors and not violations:
+        raise AnalysisError("; ".join(rule_errors))
+    if rule_errors and not quiet:
+        for e in rule_errors:
+            print(f"[vt] note: rule could not run on this tree ({e}); verdict taken from the remaining rules")
     wall = time.time() - t0
     info = dict(counts)
     info["files"] = tree.digests()
